@@ -776,7 +776,24 @@ impl Server {
             let response = if let Some(sync_resp) = sync_response {
                 sync_resp
             } else {
-                self.process_frame(frame, id)?
+                match self.process_frame(frame, id) {
+                    Ok(resp) => resp,
+                    // Connection-level failures end the connection
+                    Err(e @ FerrousError::Connection(_)) | Err(e @ FerrousError::Io(_)) => return Err(e),
+                    // A command that cannot be carried out is answered with an error reply
+                    Err(FerrousError::Storage(crate::error::StorageError::WrongType)) => {
+                        RespFrame::error("WRONGTYPE Operation against a key holding the wrong kind of value")
+                    }
+                    Err(e) => {
+                        let msg = e.to_string();
+                        if msg.starts_with("ERR ") || msg.starts_with("WRONGTYPE ") || msg.starts_with("OOM ")
+                            || msg.starts_with("NOSCRIPT ") || msg.starts_with("NOGROUP ") || msg.starts_with("BUSYGROUP ") {
+                            RespFrame::error(msg)
+                        } else {
+                            RespFrame::error(format!("ERR {}", msg))
+                        }
+                    }
+                }
             };
             responses.push(response);
         }
